@@ -27,14 +27,15 @@ class HarnessError(Exception):
 
 
 # --------------------------------------------------------------------------------------------- position kinds
-POOL = [("p", 1), ("q", 2), ("r", 0)]
-LIT = {("p", 1): "p(X)", ("q", 2): "q(X,Y)", ("r", 0): "r", ("mk", 1): "mk(X)"}
+# p/1 and p/2 share a name: code that identifies predicates by name only is then observably wrong
+POOL = [("p", 1), ("q", 2), ("r", 0), ("p", 2)]
+LIT = {("p", 1): "p(X)", ("q", 2): "q(X,Y)", ("r", 0): "r", ("p", 2): "p(X,Y)", ("mk", 1): "mk(X)"}
 
 # statement types and their slot kinds; every kind: (name, template for ONE literal L, my classification)
 #   cls: H = positive head atom, B = mentioned in the rule body / objective body, C = head element condition,
 #        N = negative/other head literal
 RULE_HEADS = {
-    "R_lit": [("head_lit", "{L}", "H"), ("head_lit_neg", "not {L}", "N")],
+    "R_lit": [("head_lit", "{L}", "H"), ("head_lit_neg", "not {L}", "N"), ("head_lit_dneg", "not not {L}", "N")],
     "R_disj": [("disj_lit", "{L}", "H"), ("disj_lit_neg", "not {L}", "N"), ("disj_cond", "fa : {L}", "C"), ("disj_cond_neg", "fa : not {L}", "C")],
     "R_choice": [("choice_lit", "{L}", "H"), ("choice_cond", "fa : {L}", "C"), ("choice_cond_neg", "fa : not {L}", "C")],
     "R_hagg": [("hagg_lit", "1,{I} : {L} : fb", "H"), ("hagg_cond", "1,{I} : fa : {L}", "C"), ("hagg_cond_neg", "1,{I} : fa : not {L}", "C")],
@@ -46,8 +47,8 @@ BODY = [
     ("body_oldagg", "1 {{ {L} }}", "B"), ("body_oldagg_cond", "1 {{ fe : {L} }}", "B"), ("body_minmax", "0 < #max {{ 1,{I} : {L} }}", "B"),
 ]
 SHOW = [("show_lit", "{L}", "S"), ("show_lit_neg", "not {L}", "S"), ("show_condhead", "{L} : fc", "S"), ("show_condcond", "fd : {L}", "S"), ("show_condcond_neg", "fd : not {L}", "S")]
-TYPES = ["R_lit", "R_disj", "R_choice", "R_hagg", "MIN", "SHOWSIG", "SHOWTERM", "OTHER"]
-SINGLE_SLOT = {"head_lit", "head_lit_neg"}
+TYPES = ["R_lit", "R_disj", "R_choice", "R_hagg", "MIN", "SHOWSIG", "SHOWNONE", "SHOWTERM", "OTHER"]
+SINGLE_SLOT = {"head_lit", "head_lit_neg", "head_lit_dneg"}
 
 
 def kinds_of(typ):
@@ -104,6 +105,8 @@ def build_statement(typ, occ, showsig=None):
         return ":~ " + "; ".join(body or ["ff"]) + ". [1@1]"
     if typ == "SHOWSIG":
         return "#show %s/%d." % showsig
+    if typ == "SHOWNONE":
+        return "#show."
     if typ == "SHOWTERM":
         body = lits(SHOW)
         return "#show t" + (" : " + "; ".join(body) if body else "") + "."
@@ -137,11 +140,14 @@ def is_collector(fn):
     return "SignedPredicate" in str(ann.get("return", ""))
 
 
-def table_for(fn):
-    """(statement-level table, show-literal-level table) of a REAL collector, from the one-marker probes"""
+def table_for(fn, signs=None):
+    """(statement-level table, show-literal-level table) of a REAL collector, from the one-marker probes; signs=None:
+    the collector's own default"""
     from ngo.utils import ast as nast
 
     def call(x):
+        if signs is not None:
+            return list(fn(x, signs))
         try:
             return list(fn(x, nast.SIGNS))
         except TypeError:
@@ -149,9 +155,14 @@ def table_for(fn):
 
     stm_t, lit_t = {}, {}
     for k, (text, stm, typ) in probes().items():
-        stm_t[k] = int(any(sp.pred.name == "mk" for sp in call(stm)))
-        if typ == "SHOWTERM":
-            lit_t[k] = int(any(sp.pred.name == "mk" for l in stm.body for sp in call(l)))
+        try:
+            stm_t[k] = int(any(sp.pred.name == "mk" for sp in call(stm)))
+            if typ == "SHOWTERM":
+                lit_t[k] = int(any(sp.pred.name == "mk" for l in stm.body for sp in call(l)))
+        except TypeError:
+            if signs is None:
+                raise
+            raise HarnessError("collector does not take a sign set")
     return stm_t, lit_t
 
 
@@ -213,6 +224,35 @@ class DefaultDict:
         return Guarded((g, kv[1]) for g, kv in self.items())
 
 
+class SymDict:
+    """a plain dict with guarded insertions, in program order: (guard, key, value); a later insertion under the same key
+    replaces the earlier one"""
+
+    def __init__(self):
+        self.entries = []
+
+    def set(self, key, value, g):
+        self.entries.append((g, key, value))
+
+    def live(self):
+        import z3
+
+        out = Guarded()
+        for i, (g, k, v) in enumerate(self.entries):
+            later = [g2 for g2, k2, _ in self.entries[i + 1:] if k2 == k]
+            out.append((z3.And([g] + [z3.Not(x) for x in later]), (k, v)))
+        return out
+
+    def items(self):
+        return self.live()
+
+    def keys(self):
+        return Guarded((g, kv[0]) for g, kv in self.live())
+
+    def values(self):
+        return Guarded((g, kv[1]) for g, kv in self.live())
+
+
 class SymStm:
     """a statement of symbolic type"""
 
@@ -246,8 +286,8 @@ class Model:
         self.n = n
         self.T = tables
         self.typ = {(s, t): z3.Bool(f"typ_{s}_{t}") for s in range(n) for t in TYPES}
-        self.occ = {(s, k, p): z3.Bool(f"occ_{s}_{k}_{p[0]}") for s in range(n) for k in KIND_NAMES for p in POOL}
-        self.sig = {(s, p): z3.Bool(f"sig_{s}_{p[0]}") for s in range(n) for p in POOL}
+        self.occ = {(s, k, p): z3.Bool(f"occ_{s}_{k}_{p[0]}{p[1]}") for s in range(n) for k in KIND_NAMES for p in POOL}
+        self.sig = {(s, p): z3.Bool(f"sig_{s}_{p[0]}{p[1]}") for s in range(n) for p in POOL}
         self.constraints = []
         for s in range(n):
             ts = [self.typ[(s, t)] for t in TYPES]
@@ -266,13 +306,26 @@ class Model:
     def collector(self, fn):
         import z3
         from clingo.ast import Sign
+        from ngo.utils import ast as nast
         from ngo.utils.ast import Predicate, SignedPredicate
 
-        stm_t, lit_t = table_for(fn)
-        self.T[fn.__name__] = stm_t
-        self.T[fn.__name__ + "@show_literal"] = lit_t
+        tables = {}
+
+        def tab(signs):
+            key = None if signs is None else frozenset(signs)
+            if key not in tables:
+                tables[key] = table_for(fn, None if signs is None else set(signs))
+                tag = fn.__name__ + ("" if key is None or key == frozenset(nast.SIGNS) else "[" + ",".join(sorted(str(x).split(".")[-1] for x in key)) + "]")
+                self.T[tag] = tables[key][0]
+                self.T[tag + "@show_literal"] = tables[key][1]
+            return tables[key]
+
+        tab(None)
 
         def f(stm, signs=None):
+            if signs is not None and not isinstance(signs, (set, frozenset)):
+                raise HarnessError("collector called with a non-constant sign set")
+            stm_t, lit_t = tab(signs)
             if isinstance(stm, tuple) and stm[0] == "showlit":
                 _, s, k = stm
                 if not lit_t.get(k):
@@ -305,6 +358,8 @@ class Interp:
                 self.globals[name] = model.collector(fn)
                 self.stubbed.append(name)
         self.supported = 0
+        self.order_sensitive = False
+        self.loops = []  # per enclosing loop: [broken, continued] as z3 formulas
 
     def run(self, *args):
         env = dict(zip([a.arg for a in self.fdef.args.args], args))
@@ -320,8 +375,13 @@ class Interp:
         return self.ret
 
     def block(self, stmts, env, g):
+        z3 = self.z3
         for s in stmts:
-            self.stmt(s, env, g)
+            if self.loops:
+                brk, cont = self.loops[-1]
+                self.stmt(s, env, z3.And(g, z3.Not(brk), z3.Not(cont)))
+            else:
+                self.stmt(s, env, g)
 
     def truth(self, c):
         z3 = self.z3
@@ -329,6 +389,16 @@ class Interp:
             return c
         if isinstance(c, SymSet):
             return z3.Or([m for _, m in c.items()]) if c.items() else z3.BoolVal(False)
+        if isinstance(c, SymDict):
+            return z3.Or([g_ for g_, _, _ in c.entries]) if c.entries else z3.BoolVal(False)
+        if isinstance(c, Guarded):
+            return z3.Or([g_ for g_, _ in c]) if c else z3.BoolVal(False)
+        if isinstance(c, tuple) and c and c[0] == "showsig_name":
+            return z3.Not(self.model.typ[(c[1], "SHOWNONE")])  # the name of `#show.` is the empty string
+        if isinstance(c, tuple) and c and c[0] == "showsig_arity":
+            return z3.Or([self.model.sig[(c[1], p)] for p in POOL if p[1] > 0])
+        if isinstance(c, tuple) and c and isinstance(c[0], str) and c[0] in ("asttype", "showlit"):
+            raise HarnessError("truth value of a symbolic object " + c[0])
         return bool(c)
 
     def stmt(self, s, env, g):
@@ -340,14 +410,35 @@ class Interp:
             self.expr(s.value, env, g)
         elif isinstance(s, (pyast.Assign, pyast.AnnAssign)):
             tgt = s.targets[0] if isinstance(s, pyast.Assign) else s.target
+            if isinstance(tgt, pyast.Subscript):
+                base = self.expr(tgt.value, env, g)
+                if not isinstance(base, SymDict):
+                    raise HarnessError("assignment to a subscript of a non-dict")
+                self.dict_set(base, self.expr(tgt.slice, env, g), self.expr(s.value, env, g), g)
+                return
             if not isinstance(tgt, pyast.Name):
                 raise HarnessError("unsupported assignment target " + pyast.dump(tgt))
+            if s.value is None:
+                return
             env[tgt.id] = self.expr(s.value, env, g)
         elif isinstance(s, pyast.For):
             it = self.expr(s.iter, env, g)
+            if s.orelse:
+                raise HarnessError("for ... else is not supported")
+            self.loops.append([z3.BoolVal(False), z3.BoolVal(False)])
             for guard, val in self.iterate(it):
                 self.bind(s.target, val, env)
+                self.loops[-1][1] = z3.BoolVal(False)
                 self.block(s.body, env, z3.And(g, guard))
+            self.loops.pop()
+        elif isinstance(s, pyast.Break):
+            if not self.loops:
+                raise HarnessError("break outside of a loop")
+            self.loops[-1][0] = z3.Or(self.loops[-1][0], g)
+        elif isinstance(s, pyast.Continue):
+            if not self.loops:
+                raise HarnessError("continue outside of a loop")
+            self.loops[-1][1] = z3.Or(self.loops[-1][1], g)
         elif isinstance(s, pyast.If):
             c = self.truth(self.expr(s.test, env, g))
             if isinstance(c, z3.BoolRef):
@@ -364,6 +455,16 @@ class Interp:
         else:
             raise HarnessError("unsupported statement " + pyast.dump(s)[:80])
 
+    def dict_set(self, d, key, value, g):
+        """d[key] = value where key / value may be the symbolic name / predicate of a #show signature"""
+        z3 = self.z3
+        if isinstance(value, Guarded):
+            for guard, v in value:
+                k = v.name if isinstance(key, tuple) and key and key[0] == "showsig_name" else key
+                d.set(k, v, z3.And(g, guard))
+        else:
+            d.set(key, value, g)
+
     def bind(self, target, val, env):
         if isinstance(target, pyast.Name):
             env[target.id] = val
@@ -379,7 +480,7 @@ class Interp:
             return [(m, e) for e, m in sorted(it.items(), key=lambda x: str(x[0]))]
         if isinstance(it, Guarded):
             return list(it)
-        if isinstance(it, DefaultDict):
+        if isinstance(it, (DefaultDict, SymDict)):
             return list(it.keys())
         return [(z3.BoolVal(True), v) for v in it]
 
@@ -410,6 +511,35 @@ class Interp:
                 cond = z3.And([z3.BoolVal(c) if isinstance(c, bool) else c for c in [self.truth(self.expr(i, env2, g)) for i in gen.ifs]] or [z3.BoolVal(True)])
                 out.append((z3.And(guard, cond), self.expr(e.elt, env2, g)))
             return out
+        if isinstance(e, (pyast.Set, pyast.Tuple, pyast.List)):
+            vals = [self.expr(x, env, g) for x in e.elts]
+            if any(isinstance(v, (z3.ExprRef, SymSet, Guarded, SymDict, DefaultDict)) for v in vals):
+                raise HarnessError("container display with symbolic elements")
+            return frozenset(vals) if isinstance(e, pyast.Set) else (tuple(vals) if isinstance(e, pyast.Tuple) else list(vals))
+        if isinstance(e, pyast.Dict):
+            d = SymDict()
+            for k, v in zip(e.keys, e.values):
+                self.dict_set(d, self.expr(k, env, g), self.expr(v, env, g), z3.BoolVal(True))
+            return d
+        if isinstance(e, pyast.DictComp):
+            gen = e.generators[0]
+            if len(e.generators) != 1:
+                raise HarnessError("unsupported comprehension")
+            d = SymDict()
+            seen_keys = set()
+            for guard, val in self.iterate(self.expr(gen.iter, env, g)):
+                env2 = dict(env)
+                self.bind(gen.target, val, env2)
+                cond = z3.And([z3.BoolVal(c) if isinstance(c, bool) else c for c in [self.truth(self.expr(i, env2, g)) for i in gen.ifs]] or [z3.BoolVal(True)])
+                k = self.expr(e.key, env2, g)
+                if k in seen_keys:
+                    # two elements of one comprehension under the same key: the later one survives.  The stubs yield in the
+                    # order in which build_statement writes the literals (kind order, then pool order); a collector that
+                    # yields in another order shows up as a disagreement in the abstraction validation (exit 3)
+                    self.order_sensitive = True
+                seen_keys.add(k)
+                d.set(k, self.expr(e.value, env2, g), z3.And(guard, cond))
+            return d
         if isinstance(e, pyast.Subscript):
             base = self.expr(e.value, env, g)
             key = self.expr(e.slice, env, g)
@@ -482,7 +612,7 @@ class Interp:
 
                 s = l[1]
                 if r == ASTType.ShowSignature:
-                    return self.model.typ[(s, "SHOWSIG")]
+                    return z3.Or(self.model.typ[(s, "SHOWSIG")], self.model.typ[(s, "SHOWNONE")])
                 if r == ASTType.ShowTerm:
                     return self.model.typ[(s, "SHOWTERM")]
                 if r == ASTType.Rule:
@@ -515,6 +645,19 @@ class Interp:
                         obj.add(v, z3.And(g, guard))
                     return None
                 raise HarnessError("unsupported set method " + f.attr)
+            if isinstance(obj, SymDict):
+                if f.attr == "update":
+                    src = args[0]
+                    if not isinstance(src, SymDict):
+                        raise HarnessError("dict.update with a non-dict")
+                    for guard, k, v in src.entries:
+                        obj.set(k, v, z3.And(g, guard))
+                    return None
+                if f.attr in ("values", "keys", "items"):
+                    return getattr(obj, f.attr)()
+                if f.attr == "get":
+                    raise HarnessError("dict.get is not modelled")
+                raise HarnessError("unsupported dict method " + f.attr)
             if isinstance(obj, Guarded) and f.attr == "append":
                 obj.append((g, args[0]))
                 return None
@@ -531,6 +674,8 @@ class Interp:
             return st
         if name == "defaultdict":
             return DefaultDict()
+        if fn is dict and not args:
+            return SymDict()
         if fn is enumerate:
             return list(enumerate(args[0]))
         if fn is sorted or fn is list:
@@ -546,7 +691,7 @@ class Interp:
             from ngo.utils.ast import Predicate
 
             s = args[0][1]
-            return Guarded((self.model.sig[(s, p)], Predicate(*p)) for p in POOL)
+            return Guarded([(self.model.sig[(s, p)], Predicate(*p)) for p in POOL] + [(self.model.typ[(s, "SHOWNONE")], Predicate("", 0))])
         return fn(*args)
 
 
